@@ -89,11 +89,11 @@ def load_known(prop):
 def run_replay(mod, spec, keep_path=None):
     """Run the replay of one counterexample against the plain library. Returns (reproduced, output)."""
     env = dict(os.environ)
-    if hasattr(mod, 'make_harness') and not hasattr(mod, 'replay_script'):
+    if (hasattr(mod, 'make_harness') and not hasattr(mod, 'replay_script')) or spec.get('module_override'):
         # generic replay: the same harness, concrete inputs, plain library (no import hook), real file system
         env['PYTHONPATH'] = os.path.join(REPO, 'src') + os.pathsep + ROOT
         env['PYTHONDONTWRITEBYTECODE'] = '1'
-        spec = dict(spec, module=mod.__name__)
+        spec = dict(spec, module=spec.get('module_override') or mod.__name__)
         try:
             p = subprocess.run([os.path.join(ROOT, '.venv', 'bin', 'python'), '-m', 'sx.replay', json.dumps(spec, default=str)],
                                env=env, capture_output=True, text=True, timeout=600, cwd=ROOT)
